@@ -24,6 +24,7 @@ From Coq Require Import List NArith ZArith Bool Permutation.
 From SK Require Import lib.LGraph model.C01_Model model.C02_Model model.C09_Model
   proof.C09_Canon proof.C09_Valid proof.C09_Balance proof.C09_Main proof.C09_Indep proof.C09_Indep2 proof.C09_ValidRC proof.C09_WL proof.C09_NautyRigid proof.C09_Nauty.
 From SK Require Import lib.StrJoin model.C09_Strings model.C09_State proof.C09_Str proof.C09_Expand proof.C09_Graph proof.C09_Backends proof.C09_State proof.C09_StrFit.
+From SK Require Import model.C09_Helpers proof.C09_Helpers model.C09_Records proof.C09_Records.
 From SK Require model.C08_Model proof.C08_Spec model.C01_Opts.
 Import ListNotations.
 
@@ -472,6 +473,17 @@ Theorem C09_fix_aam_accepted : forall G H : mgraph, wf G -> wf H ->
 Proof. exact fix_aam_accepted. Qed.
 Print Assumptions C09_fix_aam_accepted.
 
+(** CanonRSMI.remap_graph called directly (compared on every `remap` case, both argument forms): ValueError exactly for the
+    empty map, KeyError exactly when the mapping names a node that is not in the graph, otherwise the [remap_graph] of the
+    canonicaliser theorems (partial and colliding maps allowed) *)
+Theorem C09_remap_graph_full_spec : forall (H : mgraph) (pairs : list (N * N)),
+  (remap_graph_full H pairs = RValueError <-> pairs = []) /\
+  (remap_graph_full H pairs = RKeyError <-> pairs <> [] /\ exists old, In old (map fst (remap_mapping pairs)) /\ ~ In old (node_ids H)) /\
+  (forall g, remap_graph_full H pairs = ROk g <->
+     remap_graph H pairs = Some g /\ forall old, In old (map fst (remap_mapping pairs)) -> In old (node_ids H)).
+Proof. exact remap_graph_full_spec. Qed.
+Print Assumptions C09_remap_graph_full_spec.
+
 (** NormalizeAAM helpers (compared on every `subgraph` case) *)
 Theorem C09_reset_indices_spec : forall G : mgraph, wf G ->
   node_ids (reset_indices G) = map N.of_nat (seq 1 (length (gnodes G))) /\ amap_id (reset_indices G) /\
@@ -493,6 +505,36 @@ Theorem C09_extract_subgraph_spec : forall (G : mgraph) (keep : list N), wf G ->
   (forall a b x, In (a, b, x) (gedges (extract_subgraph G keep)) <-> In (a, b, x) (gedges G) /\ In a keep /\ In b keep).
 Proof. exact extract_subgraph_spec. Qed.
 Print Assumptions C09_extract_subgraph_spec.
+
+(** BalanceReactionCheck on records (model/C09_Records.v; compared on every `records` case, key ORDER included):
+    dict_balance_check stores under "balanced" the verdict of THIS record's reaction - also when the input already carried a
+    "balanced" key (repair 7b06bf6) -, keeps every other key, its value and the key order; dicts_balance_check gives one result
+    per parsed record, in input order, split loss-free by the verdict; parse_input wraps strings and keeps exactly the dicts
+    that have the column *)
+Theorem C09_dict_balance_check_spec : forall (formula : str -> option str) (r : record) (col : str) (r' : record),
+  dict_balance_check formula r col = Some r' ->
+  exists s b, rget col r = Some (VS s) /\ rsmi_balance_check formula s = Some b /\
+    rget BALANCED r' = Some (VB b) /\ (forall k, k <> BALANCED -> rget k r' = rget k r) /\
+    (map fst r' = map fst r \/ (rget BALANCED r = None /\ map fst r' = map fst r ++ [BALANCED])).
+Proof. exact dict_balance_check_spec. Qed.
+Print Assumptions C09_dict_balance_check_spec.
+
+Theorem C09_dicts_balance_check_spec : forall (formula : str -> option str) (inp : input) (col : str) (A B : list record),
+  dicts_balance_check formula inp col = Some (A, B) ->
+  exists rs res, parse_input inp col = Some rs /\
+    Forall2 (fun r r' => dict_balance_check formula r col = Some r') rs res /\
+    A = filter is_balanced res /\ B = filter (fun r => negb (is_balanced r)) res /\ Permutation (A ++ B) res /\
+    (forall r r', In r' res -> dict_balance_check formula r col = Some r' ->
+       exists s, rget col r = Some (VS s) /\ rsmi_balance_check formula s = Some (is_balanced r')).
+Proof. exact dicts_balance_check_spec. Qed.
+Print Assumptions C09_dicts_balance_check_spec.
+
+Theorem C09_parse_input_spec : forall col : str,
+  (forall s, parse_input (InStr s) col = Some [[(col, VS s)]]) /\ parse_input InOther col = None /\
+  (forall l, exists rs, parse_input (InList l) col = Some rs /\
+     forall r, In r rs <-> exists it, In it l /\ ((exists s, it = IStr s /\ r = [(col, VS s)]) \/ (it = IDict r /\ rget col r <> None))).
+Proof. exact parse_input_spec. Qed.
+Print Assumptions C09_parse_input_spec.
 
 (** string-level balance verdict = graph-level formula, relative to the CalcMolFormula contract for the two sides (explicit
     premise; the agreement is compared on every balance case) *)
